@@ -336,6 +336,8 @@ def coerce_scalar(value, sort, allow_none=False):
         return SV(value.t)
     if hasattr(value, "t") and hasattr(value.t, "sort") and value.t.sort() == sort:
         return SV(value.t)
+    if isinstance(value, str) and sort.kind() == z3.Z3_UNINTERPRETED_SORT and sort.name() not in ("Obj", "Name", "Part"):
+        return SV(z3.Const(f"strconst:{value}", sort))
     if sort.name() == "Obj":
         return SV(obj_of(value))
     raise OutOfReach(f"cannot coerce {value!r} to {sort}")
